@@ -95,8 +95,16 @@ func c12NamesFile(reverse bool) *dsl.File {
 	metadata := &dsl.Message{Name: "Metadata", Fields: []*dsl.Field{f("ID", 1, dsl.String), {Name: "Labels", Num: 2, T: dsl.String, Card: dsl.Map}}}
 	spec := &dsl.Message{Name: "Spec", Fields: []*dsl.Field{msg("Options", 1, "Options"), {Name: "Roles", Num: 2, T: dsl.String, Card: dsl.Repeated}}}
 	specOptions := &dsl.Message{Name: "SpecOptions", Fields: []*dsl.Field{f("On", 1, dsl.Bool), msg("Metadata", 2, "Metadata")}}
-	options := &dsl.Message{Name: "Options", Fields: []*dsl.Field{f("Level", 1, dsl.Int32)}}
-	ms := []*dsl.Message{user, metadata, spec, specOptions, options}
+	options := &dsl.Message{Name: "Options", Fields: []*dsl.Field{f("Level", 1, dsl.Int32), msg("Prefs", 2, "Prefs")}}
+	// three different messages share the short name Prefs: one declared inside User, one inside Spec, one
+	// at the top level (Go names User_Prefs, Spec_Prefs, Prefs): which of them a field means must not
+	// depend on which other roots are built in the same run
+	user.Nested = []*dsl.Message{{Name: "Prefs", Fields: []*dsl.Field{f("Theme", 1, dsl.String)}}}
+	user.Fields = append(user.Fields, msg("Prefs", 4, "User.Prefs"))
+	spec.Nested = []*dsl.Message{{Name: "Prefs", Fields: []*dsl.Field{f("Depth", 1, dsl.Int64), f("Wide", 2, dsl.Bool)}}}
+	spec.Fields = append(spec.Fields, msg("Prefs", 3, "Spec.Prefs"))
+	prefs := &dsl.Message{Name: "Prefs", Fields: []*dsl.Field{{Name: "Top", Num: 1, T: dsl.String, Card: dsl.Repeated}}}
+	ms := []*dsl.Message{user, metadata, spec, specOptions, options, prefs}
 	if reverse {
 		for i, j := 0, len(ms)-1; i < j; i, j = i+1, j-1 {
 			ms[i], ms[j] = ms[j], ms[i]
